@@ -95,9 +95,25 @@ def install(R):
           ensures=[("standard_error", "implies(self.count > 0, is_real(result) and realv(result) >= 0 and "
                                       "realv(result) * realv(result) * self.g_n * self.g_n * self.g_n == self.g_S2 * self.g_n - self.g_S1 * self.g_S1)")])
 
+    stderr_f = z3.Function("StdErr", z3.IntSort(), z3.RealSort(), z3.RealSort(), z3.RealSort())
+
+    n_, a1_, a2_ = z3.Int("n!"), z3.Real("s1!"), z3.Real("s2!")
+    e_ = stderr_f(n_, a1_, a2_)
+    # definition: the non-negative root of  e^2 * n^3 == S2 * n - S1^2  (exists when the right-hand side is non-negative, i.e. for sums of real samples)
+    R.axioms.append(("StdErr_def", z3.ForAll([n_, a1_, a2_], z3.Implies(z3.And(n_ > 0, a2_ * n_ - a1_ * a1_ >= 0),
+                                                                     z3.And(e_ >= 0, e_ * e_ * n_ * n_ * n_ == a2_ * n_ - a1_ * a1_)), patterns=[e_])))
+
+    def std_err(eng, fr, rs):
+        """the standard error of the samples fed so far, as a function of the ghost sums (n, S1, S2)"""
+        g = lambda a: eng.heap_get(fr.st, rs, a).t
+        return mk_real(stderr_f(g("g_n"), g("g_S1"), g("g_S2")))
+    S["StdErr"] = std_err
+    R.get(U + "RunningStatistics.err").ensures.append(("is_the_standard_error", "implies(self.count > 0, realv(result) == StdErr(self))"))
+
     R.add(U + "RunningStatistics.converged", cls="RunningStatistics", types={"rtol": "real", "atol": "real"}, result="bool",
           props=["C19"], requires=[("inv", "RSInv(self)")],
-          ensures=[("frame", "self.count == old(self.count) and self.mean == old(self.mean) and self.M2 == old(self.M2)")])
+          ensures=[("frame", "self.count == old(self.count) and self.mean == old(self.mean) and self.M2 == old(self.M2)"),
+                   ("error_within_relative_plus_absolute_tolerance", "implies(self.count > 0, result == (StdErr(self) < rtol * abs(self.mean) + atol))")])
 
     R.add(U + "format_number_with_error", result="V", pure=True, assumed=True, types={},
           notes="caller-side summary: a pure string function of (x, err) (its read-back property is C20)")
@@ -123,6 +139,9 @@ def install(R):
               ("stops_only_when_converged_or_limit", "implies(not caught('KeyboardInterrupt'), "
                                                      "(last_result_truthy('RunningStatistics.converged') and rs.count - 1 > min_samples) "
                                                      "or rs.count >= max_samples)"),
+              # the requested relative error: err < rtol * |mean| + tol_scale * rtol
+              ("stops_only_once_the_requested_error_is_met_or_at_the_limit",
+               "implies(not caught('KeyboardInterrupt'), (rs.count > 0 and StdErr(rs) < rtol * abs(rs.mean) + tol_scale * rtol) or rs.count >= max_samples)"),
               ("returns_stats", "implies(get != 'samples' and get != 'mean', result == rs)"),
               ("returns_samples", "implies(get == 'samples' and not caught('KeyboardInterrupt'), slen(xs) == rs.count)"),
           ],
@@ -146,6 +165,13 @@ def install(R):
           ghost_entry=["self.g_n = self.g_n + 1", "self.g_Sx = self.g_Sx + x", "self.g_Sy = self.g_Sy + y", "self.g_Sxy = self.g_Sxy + x * y"],
           modifies=["self.count", "self.xmean", "self.ymean", "self.C", "self.g_n", "self.g_Sx", "self.g_Sy", "self.g_Sxy"],
           ensures=[("inv", "RCInv(self)"), ("count", "self.count == old(self.count) + 1")])
+    R.add(U + "RunningCovariance.update_from_it", cls="RunningCovariance", types={"xs": "V", "ys": "V"}, result="none", props=["C19"],
+          requires=[("inv", "RCInv(self)"),
+                    ("reals", "is_seq(xs) and is_seq(ys) and slen(xs) == slen(ys) and forall(lambda k: implies(0 <= k and k < slen(xs), "
+                              "is_real(sget(xs, k)) and is_real(sget(ys, k))))")],
+          modifies=["self.count", "self.xmean", "self.ymean", "self.C", "self.g_n", "self.g_Sx", "self.g_Sy", "self.g_Sxy"],
+          loops={"loop0": dict(inv=[("inv", "RCInv(self)"), ("count", "self.count == old(self.count) + _i")])},
+          ensures=[("inv", "RCInv(self)"), ("every_pair_fed_once", "self.count == old(self.count) + slen(xs)")])
     R.add(U + "RunningCovariance.covar", cls="RunningCovariance", result="real", props=["C19"],
           requires=[("inv", "RCInv(self)"), ("nonempty", "self.count > 0")],
           ensures=[("population_covariance", "result * self.g_n * self.g_n == self.g_Sxy * self.g_n - self.g_Sx * self.g_Sy")])
